@@ -13,14 +13,37 @@ package symbolizer
 //@ func Demangle
 //@   requires prof != nil && validmode(demanglerMode)
 //@   requires forall i int :: 0 <= i && i < len(prof.Function) ==> prof.Function[i] != nil
+//@   ensures keeps_names: forall i int :: 0 <= i && i < len(prof.Function) ==> (old(prof.Function[i].Name) != "" ==> prof.Function[i].Name != "")
+//@   ensures same_functions: len(prof.Function) == old(len(prof.Function)) && forall i int :: 0 <= i && i < len(prof.Function) ==> prof.Function[i] == old(prof.Function[i])
 //@   loop 1
-//@     invariant prof != nil && validmode(demanglerMode)
-//@     invariant forall i int :: 0 <= i && i < len(prof.Function) ==> prof.Function[i] != nil
+//@     invariant prof != nil && validmode(demanglerMode) && len(prof.Function) == old(len(prof.Function))
+//@     invariant forall i int :: 0 <= i && i < len(prof.Function) ==> prof.Function[i] != nil && prof.Function[i] == old(prof.Function[i])
+//@     invariant forall i int :: 0 <= i && i < len(prof.Function) ==> (old(prof.Function[i].Name) != "" ==> prof.Function[i].Name != "")
 //@   loop 2
-//@     invariant prof != nil
-//@     invariant forall i int :: 0 <= i && i < len(prof.Function) ==> prof.Function[i] != nil
+//@     invariant prof != nil && len(prof.Function) == old(len(prof.Function))
+//@     invariant forall i int :: 0 <= i && i < len(prof.Function) ==> prof.Function[i] != nil && prof.Function[i] == old(prof.Function[i])
+//@     invariant forall i int :: 0 <= i && i < len(prof.Function) ==> (old(prof.Function[i].Name) != "" ==> prof.Function[i].Name != "")
 //@ func Symbolizer.Symbolize
 //@   requires s != nil && s.UI != nil && p != nil
 //@   requires forall i int :: 0 <= i && i < len(p.Function) ==> p.Function[i] != nil
 //@   loop 1
 //@     invariant s != nil && s.UI != nil && p != nil && validmode(demanglerMode)
+
+// ---- C12: functions added by local symbolization get ids distinct from every existing id ----
+// addFunction (closure of doLocalSymbolize): maxID bounds every id in the profile, before and after.
+//@ func doLocalSymbolize$1 arith bv
+//@   requires f != nil && prof != nil && functions != nil && maxID < 18446744073709551615
+//@   requires bounded: forall i int :: 0 <= i && i < len(prof.Function) ==> prof.Function[i] != nil && prof.Function[i].ID <= maxID && prof.Function[i] != f
+//@   requires forall k profile.Function :: has(functions, k) ==> functions[k] == nil || allocated(functions[k])
+//@   ensures added_len: result == f && !old(has(functions, *f) && functions[*f] != nil) ==> len(prof.Function) == old(len(prof.Function)) + 1
+//@   ensures added_last: result == f && !old(has(functions, *f) && functions[*f] != nil) ==> prof.Function[len(prof.Function) - 1] == f
+//@   ensures freshid: result == f && !old(has(functions, *f) && functions[*f] != nil) ==> forall i int :: 0 <= i && i < old(len(prof.Function)) ==> prof.Function[i].ID < f.ID
+//@   ensures bounded_kept: forall i int :: 0 <= i && i < len(prof.Function) ==> prof.Function[i] != nil && prof.Function[i].ID <= maxID
+//@   ensures others: forall i int :: 0 <= i && i < old(len(prof.Function)) ==> prof.Function[i] == old(prof.Function[i])
+
+// ---- C12: demangling never replaces a non-empty name by an empty one and touches nothing but Name ----
+//@ func demangleSingleFunction
+//@   requires fn != nil
+//@   ensures keeps_name: old(fn.Name) != "" ==> fn.Name != ""
+//@   ensures names_only: fn.SystemName == old(fn.SystemName) && fn.ID == old(fn.ID) && fn.Filename == old(fn.Filename) && fn.StartLine == old(fn.StartLine)
+//@   ensures only_fn: forall g *profile.Function :: g != fn ==> g.Name == old(g.Name)
